@@ -179,7 +179,9 @@ class MADisjunctiveConditionsRemover(DisjunctiveConditionsRemover):
                     if na is not None:
                         new_to_old[na] = None
                         new_agent.add_action(na)
-                new_agent.add_fluent(fake_fluent, default_initial_value=False)
+                new_problem.ma_environment.add_fluent(
+                    fake_fluent, default_initial_value=False
+                )
                 new_problem.add_agent(new_agent)
                 new_fluents.append(fake_fluent)
                 goal = env.expression_manager.FluentExp(fake_fluent)
